@@ -387,6 +387,7 @@ def iter_beacon_config_blocks(
     # Retry with left over xor keys if specified
     if not found and all_xor_keys:
         logger.debug("config_block not found, trying all xor keys...")
+        fxor = fobj
         if xordecode:
             try:
                 fxor = XorEncodedFile.from_file(fobj)
